@@ -3,7 +3,7 @@
 
 Proved: add_transition inserts exactly the given transition into the view; __call__ returns exactly the (target, push) pairs of the key
 (nothing for an unknown key); copy returns a new object with the same view, built through add_transition, and leaves the operand alone.
-Not covered: get_number_transitions (sum over a generator), to_dict (hands out the dictionary itself), the iterator protocol
+Not covered: get_number_transitions (sum over a generator), to_dict (a copy since fix b74ca87; it handed out the dictionary itself before), the iterator protocol
 (__iter__ / __next__ keep their position in the object: two iterations at the same time disturb each other - no caller in the library does that).
 """
 from z3 import *
